@@ -371,6 +371,10 @@ func (o Opts) BaseCtx() context.Context {
 
 var Entries = []string{"query", "first", "exists", "match", "existsormatch"}
 
+// FaultSink, if set, receives every hook-invariant failure observed by a
+// monitored call (whatever property's workload issued it).
+var FaultSink func(entry string, p *path.Path, doc any, o Opts, faults []string)
+
 // Call runs one entry point under a monitor and recover().
 func Call(entry string, p *path.Path, doc any, o Opts) *Out {
 	return CallMonitored(entry, p, doc, o, NewMon())
@@ -395,6 +399,9 @@ func CallMonitored(entry string, p *path.Path, doc any, o Opts, m *CallMon) (out
 		out.Faults = m.Faults
 		out.Steps = m.Steps
 		out.Polls = m.Polls
+		if len(m.Faults) > 0 && FaultSink != nil {
+			FaultSink(entry, p, doc, o, m.Faults)
+		}
 	}()
 	opts := o.Exec()
 	switch entry {
